@@ -446,7 +446,7 @@ func segmentFMP4MuxParts(
 	var tfdt *amp4.Tfdt
 	var timeScale uint32
 	var segmentDuration time.Duration
-	breakAtNextMdat := false
+	tracksAtEnd := make(map[uint32]struct{})
 
 	_, err := amp4.ReadBoxStructure(r, func(h *amp4.ReadHandle) (any, error) {
 		switch h.BoxInfo.Type.String() {
@@ -503,7 +503,7 @@ func segmentFMP4MuxParts(
 
 			for _, e := range trun.Entries {
 				if dts >= durationMP4 {
-					breakAtNextMdat = true
+					tracksAtEnd[tfhd.TrackID] = struct{}{}
 					break
 				}
 
@@ -545,7 +545,9 @@ func segmentFMP4MuxParts(
 			}
 
 		case "mdat":
-			if breakAtNextMdat {
+			// tracks are interleaved with a delay and a part might not contain every track:
+			// stop only when every track has reached the end of the requested range.
+			if len(tracksAtEnd) >= len(tracks) {
 				return nil, errTerminated
 			}
 		}
